@@ -30,6 +30,10 @@ def split_w(P, tensors, w, dtype):
 
 def weights_for(rng, m):
     r = rng.random()
+    if r < 0.08:
+        # tiny but non-zero weights (a loss on a 1e12 scale compensated by a 1e-12 weight): binary fractions, exact
+        e = rng.choice([34, 40, 47])           # one common exponent: everything stays exact (a scaling by a power of two)
+        return ("const", [Fraction(rng.choice([-3, -1, 1, 2, 5]), 2 ** e) for _ in range(m)])
     if r < 0.5:
         return ("const", [rng.randint(-6, 6) for _ in range(m)])      # negative and zero weights included
     if r < 0.8 or m not in (1, 2, 4, 8, 16):
@@ -59,6 +63,8 @@ def check_backward(ctx: Ctx):
     agg = weights_for(rng, m)
     chunk = rng.choice([None, 1, 2, m + 1])
     pre = rand_pre(rng, P, P.leaves())
+    if agg[0] == "const" and any(isinstance(x, Fraction) for x in agg[1]):
+        pre = {k: None for k in P.leaves()}         # (tiny weights: a pre-existing .grad of size 1 would absorb them in float32)
     report = P.leaves()
     for dtype in ((torch.float64,) if P.big else (torch.float64, torch.float32)):
         kind = rng.choice(["list", "tuple", "gen", "iter"])      # `inputs: Iterable[Tensor]` (one-shot ones included)
@@ -103,6 +109,8 @@ def check_mtl(ctx: Ctx):
     agg = weights_for(rng, T)
     chunk = rng.choice([None, 1, 2])
     pre = rand_pre(rng, P, P.leaves())
+    if agg[0] == "const" and any(isinstance(x, Fraction) for x in agg[1]):
+        pre = {k: None for k in P.leaves()}
     report = P.leaves()
     dtype = torch.float64
     real_tasks = tasks
